@@ -292,8 +292,18 @@ def cross_build(name, scenario, build_a="std", build_b="alloc", prop="C18", jobs
                         p = e.get("p")
                         val_a = a.get("r") in ("complete", "incomplete")
                         val_e = e.get("r") in ("complete", "incomplete")
+                        sn, sk = e.get("s", {}).get("n"), e.get("s", {}).get("k")
                         if p in diverged:
+                            # history-free lines are still paired: an unfragmented sentence, and the opening
+                            # fragment of a group - which also makes the two histories the same again when
+                            # both builds accept it
                             pair = False
+                            if val_e and sn == 1 and sk == 1:
+                                pair = True
+                            elif val_e and e.get("r") == "incomplete" and sk == 1 and sn is not None and sn > 1:
+                                pair = True
+                                if a.get("r") == "incomplete":
+                                    diverged.discard(p)
                         elif val_a != val_e or (val_a and a.get("r") != e.get("r")):
                             diverged.add(p)
                             # the diverging line itself is paired only when it is history-free
@@ -326,7 +336,11 @@ def replay(path):
         from . import cli
         B.build_cli()
         data = bytes.fromhex(d["ops"][0][6:])
-        evs = cli.events_of(data)
+        if len(d["ops"]) >= 3 and d["ops"][1].startswith("WITHOUT "):
+            rem = {int(x) for x in d["ops"][2][8:].split(",") if x}
+            evs = [e for (_, es) in cli.twin_events((bytes.fromhex(d["ops"][1][8:]), data, rem)) for e in es]
+        else:
+            evs = cli.events_of(data)
         wdir = ensure(os.path.join(WORK, "replay_%d" % os.getpid()))
         p = os.path.join(wdir, "cli.ndjson")
         with open(p, "w") as f:
